@@ -20,6 +20,9 @@ ALL = list(range(len(NAMES)))
 KIND_OF = {c: k for k, cs in (("D", (D, DA, DAA, DB, DFB, DFA, DC, DD)), ("C", (C, CA, CAA, CB, CFB, CFA)), ("S", (S, SA, SFA)),
                               ("M", (M, MA, MAA, MFA)), ("R", (R, RA, RFA, RFB))) for c in cs}
 
+# zoo variant 3 of impl/registry.py: the plain zoo, every read-only accessor of every held object read after every operation
+from impl.registry import READS_VARIANT, READ_ATTRS   # noqa: E402  (constants only; the library is not imported)
+
 _ct = None
 
 
@@ -362,12 +365,20 @@ def snippet(ops, nslots, variant=0):
                   ", ".join(f"ZOO[{c}] = {NAMES[c]}" for c in sorted(used) if c >= 5),
                   "import sys; sys.path.insert(0, '/verif/harness')",
                   "from impl.registry import build_zoo, ZOO; build_zoo()"]
-        if variant:
+        if variant and variant != READS_VARIANT:
             lines += ["# the same zoo built from classes that no naming attribute tells apart (variant 1: every user class of "
                       "one kind has the same __name__/__qualname__/__module__, as from a class factory or type() called twice; "
                       "variant 2: those of the library class of its kind)",
                       f"from impl.registry import zoo_variant; zoo_variant({variant}).__enter__()"]
     lines.append(f"s = [None] * {nslots}")
+    reads = variant == READS_VARIANT
+    if reads:
+        variant = 0
+        lines += ["# after every operation every read-only accessor of every held object is read and thrown away",
+                  f"READ_ATTRS = {READ_ATTRS!r}",
+                  "def reads():\n    for k in range(len(s)):\n        for a in READ_ATTRS:\n            try: getattr(s[k], a)\n"
+                  "            except Exception: pass\n        for f in (repr, str, hash, lambda x: x == x):\n"
+                  "            try: f(s[k])\n            except Exception: pass"]
 
     def clsname(c):
         return NAMES[c] if c < 5 else f"ZOO[{c}]"
@@ -424,6 +435,8 @@ def snippet(ops, nslots, variant=0):
             lines.append(tryit("print(" + q.format(o[1]) + ")"))
         elif t == "turns":
             lines.append(tryit(f"s[{o[1]}].turns = {o[2]}"))
+        if reads:
+            lines.append("reads()")
     lines.append("for c in (DomainS, ComplexS, StrandS, MacrostateS, ReactionS): print(c.__name__, dict(c._instanceNames))")
     if variant:
         lines.append("for k, c in enumerate(ZOO):\n    if len(c._instanceNames): print(f'ZOO[{k}]', c.__name__, "
